@@ -206,20 +206,22 @@ func (this *badgerWAL) Save(hardState raftpb.HardState, entries []raftpb.Entry, 
 	batch := this.db.NewWriteBatch()
 	defer batch.Cancel()
 
+	if !etcdRaft.IsEmptySnap(snapshot) {
+		// A received snapshot replaces the log: delete the old entries first, so that the
+		// snapshot's dummy entry (and any entries that follow it in this batch) are kept
+		if err := this.deleteEntriesFromIndex(batch, 0); err != nil {
+			return err
+		}
+		if err := this.writeSnapshot(batch, snapshot); err != nil {
+			return err
+		}
+		this.cache.Store(cacheLastIndexKey, snapshot.Metadata.Index)
+	}
 	if err := this.writeEntries(batch, entries); err != nil {
 		return err
 	}
 	if err := this.writeHardState(batch, hardState); err != nil {
 		return err
-	}
-	if !etcdRaft.IsEmptySnap(snapshot) {
-		if err := this.writeSnapshot(batch, snapshot); err != nil {
-			return err
-		}
-		// Delete the log
-		if err := this.deleteEntriesFromIndex(batch, 0); err != nil {
-			return err
-		}
 	}
 
 	return batch.Flush()
